@@ -207,6 +207,10 @@ func (ev *Evidence) write(wall float64, violations int) {
 	}
 	b, _ := json.MarshalIndent(doc, "", " ")
 	dir := filepath.Join(verifRoot(), "evidence")
+	if os.Getenv("VERIF_REPO") != "" {
+		// experiments on a scratch copy of the repository never touch the registered evidence
+		dir = filepath.Join(verifRoot(), "work", "evidence-experiment")
+	}
 	os.MkdirAll(dir, 0o755)
 	os.WriteFile(filepath.Join(dir, ev.id+".json"), b, 0o644)
 }
